@@ -15,7 +15,8 @@
      (D) fail fast   - a read whose cache node is down reports the store's error with 0
                        queries;
      (E) TTLs        - every entry that appears or changes carries a finite TTL, a whole
-                       number t >= 1 of seconds inside the band of the expiry it derives
+                       number t >= 1 of seconds inside the +/-5 % band (the property's own
+                       constant, not the source's) of the expiry it derives
                        from (configured expiry, not-found expiry, expiry + 5 s for the
                        primary written by an index load, the requested expiry); nothing
                        else changes; time only shortens TTLs;
@@ -113,6 +114,12 @@ Variables f7 f11 : bool.
 
 Definition down (r : rstate) (k : key) : bool := existsb (Z.eqb (node_of c k)) (r_cf r).
 
+(* a mid-operation outage op is checked like the plain op, plus what its outage allows *)
+Definition norm (o : op) : op :=
+  match o with OTakeMid p t _ => OTake p t | OQriMid u t _ => OQri u t | _ => o end.
+Definition mid_node (o : op) : option Z :=
+  match o with OTakeMid _ _ n | OQriMid _ _ n => Some n | _ => None end.
+
 Definition is_answer (v : option (cval * Z)) : bool :=
   match v with Some (CRow _ _, _) | Some (CHole, _) => true | _ => false end.
 
@@ -203,13 +210,24 @@ Definition fail_fast (r : rstate) (o : op) (ob : opobs) : bool :=
   end.
 
 (* (E) *)
-Definition band (b t : Z) : bool := (1 <=? t) && ttl_ok b t.
+(* the band of the PROPERTY TEXT (+/-5 %, rounded up to seconds) - deliberately not the
+   model's [ttl_ok], which follows the expiryDeviation of the source *)
+Definition p_lo (b : Z) : Z := cdiv (19 * b / 20) sec.
+Definition p_hi (b : Z) : Z := cdiv (21 * b / 20) sec.
+Definition band (b t : Z) : bool := (1 <=? t) && (p_lo b <=? t) && (t <=? p_hi b).
 
-Definition new_ok (r : rstate) (o : op) (ob : opobs) (e : dump_entry) : bool :=
+(* F11's second face: a configured expiry below 2 ns can be jittered to 0 s *)
+Definition tiny (v : cval) : bool :=
+  match v with CHole => nf_of c <? 2 | _ => expiry_of c <? 2 end.
+
+Definition new_ok (r : rstate) (o : op) (mid : option Z) (ob : opobs) (e : dump_entry) : bool :=
   let '(k, v, ttl) := e in
   if ttl =? 0 then
+    f11 &&
     match o with
-    | OSetEx p u w d => f11 && (d <=? 0) && key_eqb k (KP p) && cval_eqb v (CRow u w)
+    | OSetEx p u w d => (d <=? 0) && key_eqb k (KP p) && cval_eqb v (CRow u w)
+    | OTake p _ | OSet p _ _ _ => key_eqb k (KP p) && tiny v
+    | OQri u _ => match k with KU u' => (u' =? u) && tiny v | KP _ => match v with CHole => tiny v | _ => (o_qi ob =? 0) && tiny v end end
     | _ => false
     end
   else
@@ -225,11 +243,14 @@ Definition new_ok (r : rstate) (o : op) (ob : opobs) (e : dump_entry) : bool :=
       | KU u', CHole => (u' =? u) && band (nf_of c) t
       | KP p, CRow _ _ =>
         if o_qi ob =? 1
-        then (* written by the index load: expires exactly 5 s after the index entry *)
-          band (expiry_of c) (t - safe_gap)
+        then (* written by the index load: expires exactly the gap after the index entry *)
+          (0 <? safe_gap)
+          && (band (expiry_of c) (t - safe_gap) || (f11 && tiny v && (t =? safe_gap)))
           && match dget (o_dump ob) (KU u) with
              | Some (CPk p', ti) => (p' =? p) && (ttl =? ti + 1000 * safe_gap)
-             | _ => false
+             | Some _ => false
+             | None => (* the index SET failed: only under an outage injected on its node *)
+               match mid with Some n => node_of c (KU u) =? n | None => false end
              end
         else band (expiry_of c) t
       | KP _, CHole => band (nf_of c) t
@@ -249,7 +270,7 @@ Definition ttls (r : rstate) (o : op) (ob : opobs) : bool :=
                else (0 <? ttl) && dmem (k, v, ttl + Z.max 0 ms) (r_prev r))
             (o_dump ob)
   | _ =>
-    forallb (fun e => dmem e (r_prev r) || new_ok r o ob e) (o_dump ob)
+    forallb (fun e => dmem e (r_prev r) || new_ok r (norm o) (mid_node o) ob e) (o_dump ob)
   end.
 
 (* (F) *)
@@ -262,8 +283,20 @@ Definition invalidated (r : rstate) (o : op) (ob : opobs) : bool :=
   | _, _ => true
   end.
 
+(* with an outage injected during the index query, the primary's SET may fail: reported *)
+Definition fail_fast_mid (r : rstate) (o : op) (ob : opobs) : bool :=
+  match o with
+  | OQriMid u _ _ =>
+    if down r (KU u) then fail_fast r (norm o) ob else
+    match dget (r_prev r) (KU u) with
+    | None => if is_cerr (o_ret ob) then untouched r ob && (o_qi ob =? 1) else true
+    | Some _ => fail_fast r (norm o) ob
+    end
+  | _ => fail_fast r (norm o) ob
+  end.
+
 Definition check_op (r : rstate) (o : op) (ob : opobs) : bool :=
-  coherent r o ob && served r o ob && db_errors r o ob && fail_fast r o ob
+  coherent r (norm o) ob && served r (norm o) ob && db_errors r (norm o) ob && fail_fast_mid r o ob
   && ttls r o ob && invalidated r o ob.
 
 Definition next (r : rstate) (o : op) (ob : opobs) : rstate :=
@@ -276,6 +309,9 @@ Definition next (r : rstate) (o : op) (ob : opobs) : rstate :=
   | OCFault n b, _ =>
     mkR (r_db r) (r_dbf r) (if b then n :: r_cf r else filter (fun m => negb (m =? n)) (r_cf r))
         (o_dump ob) disc ms
+  | OTakeMid _ _ n, _ | OQriMid _ _ n, _ =>
+    (* the outage is injected by the query callback: only if a query ran *)
+    mkR (r_db r) (r_dbf r) (if 0 <? o_qi ob + o_qp ob then n :: r_cf r else r_cf r) (o_dump ob) disc ms
   | _, _ => mkR (r_db r) (r_dbf r) (r_cf r) (o_dump ob) disc ms
   end.
 
@@ -306,8 +342,8 @@ Fixpoint first_fail (c : config) (r : rstate) (ops : list op) (obs : list opobs)
   match ops, obs with
   | o :: ops', ob :: obs' =>
     if check_op c false false r o ob then first_fail c (next c r o ob) ops' obs' (i + 1)
-    else Some (i, [coherent false r o ob; served c r o ob; db_errors r o ob; fail_fast c r o ob;
-                   ttls c false r o ob; invalidated c r o ob])
+    else Some (i, [coherent false r (norm o) ob; served c r (norm o) ob; db_errors r (norm o) ob;
+                   fail_fast_mid c r o ob; ttls c false r o ob; invalidated c r o ob])
   | _, _ => None
   end.
 
